@@ -116,6 +116,14 @@ def r1(R1, cfg, F):
         rc = [c for c in rp.calls() if c.callee and c.callee.best == 'std::cell::Cell::<T>::replace']
         ag = [s for _, _, s in rp.assigns() if s['place']['l'] == 0 and s['rv']['k'] == 'aggregate']
         ok = len(rc) == 1 and len(ag) == 1 and rp.access_path(rc[0].args[0]) == ['arg1'] and rp.access_path(rc[0].args[1]) == ['arg2']
+        if not rc and len(ag) == 1:
+            # Cell::replace spelled `let previous = cell.get(); cell.set(new)` (the same for a Copy value: nothing runs in between)
+            gt = [c for c in rp.calls() if c.callee and c.callee.best == 'std::cell::Cell::<T>::get']
+            st_ = [c for c in rp.calls() if c.callee and c.callee.best == 'std::cell::Cell::<T>::set']
+            between = [c for c in rp.calls() if gt and st_ and c not in gt + st_ and c.bb in rp.reachable([gt[0].target] if gt[0].target is not None else []) and st_[0].bb in rp.reachable([c.bb])]
+            if len(gt) == 1 and len(st_) == 1 and rp.dominates(gt[0].bb, st_[0].bb) and not between and rp.access_path(gt[0].args[0]) == ['arg1'] \
+                    and rp.access_path(st_[0].args[0]) == ['arg1'] and rp.access_path(st_[0].args[1]) == ['arg2'] and common.inevitable(rp, [], st_[0].bb):
+                rc, ok = gt, True
         f_cell = f_val = None
         if ok:
             # the two fields are told apart by what is stored in them, not by their names
